@@ -854,6 +854,29 @@ class Executor:
             if norm_type(ty) in INT_BITS and norm_type(ty) not in SIGNED:
                 a, b = [self.operand(st, x) for x in args]
                 return z3.If(z3.ULE(a, b), a, b) if op == "min" else z3.If(z3.UGE(a, b), a, b)
+        if re.search(r"^<(std::result::)?Result<.*> as (std::ops::)?Try>::branch$", callee):
+            x = self.operand(st, args[0])
+            if isinstance(x, Agg):
+                if "#d" not in x:
+                    self.new_discr(st, x, "Result")
+                r = Agg("ControlFlow")
+                r["#d"] = z3.If(x["#d"] == 0, z3.BitVecVal(0, 64), z3.BitVecVal(1, 64))
+                cont = Agg("Continue")
+                ok = x.get(("as", "Ok"))
+                cont[0] = ok[0] if isinstance(ok, Agg) and 0 in ok else Agg("okval")
+                r[("as", "Continue")] = cont
+                brk = Agg("Break")
+                res = Agg("Result::Err")
+                res["#d"] = z3.BitVecVal(1, 64)
+                if ("as", "Err") in x:
+                    res[("as", "Err")] = x[("as", "Err")]
+                brk[0] = res
+                r[("as", "Break")] = brk
+                return r
+        if re.search(r"as (std::ops::)?FromResidual<.*Result<.*>>::from_residual$", callee) and re.match(r"<(std::result::)?Result<", callee):
+            r = Agg("Result::Err")
+            r["#d"] = z3.BitVecVal(1, 64)
+            return r
         m = re.match(r"(?:std::option::)?Option::<(.*)>::(unwrap_or|is_some|is_none|unwrap_or_default)$", callee)
         if m:
             op = m.group(2)
